@@ -450,10 +450,217 @@ func checkFill(rs []*tbl.Raw, arg string, res string) {
 	}
 }
 
+func u64list(s string) []uint64 {
+	var r []uint64
+	if s == "" || s == "-" {
+		return r
+	}
+	for _, x := range strings.Split(s, ",") {
+		v, _ := strconv.ParseUint(x, 10, 64)
+		r = append(r, v)
+	}
+	return r
+}
+
+// checkShift: updateChunkOffsets must move every chunk offset by (new mdat payload start - firstOffset), the new mdat
+// being written with an 8-byte header; an stco offset that no longer fits must not be stored.
+func checkShift(rs []*tbl.Raw, arg, res string) {
+	a := strings.Split(arg, ":")
+	swm, _ := strconv.ParseUint(a[0], 10, 64)
+	first, _ := strconv.ParseUint(a[1], 10, 64)
+	var enc []string
+	fits := true
+	for _, r := range rs {
+		enc = append(enc, r.Encode())
+		for _, o := range r.Offs {
+			if o < first || swm >= 1<<62 || o >= 1<<62 {
+				return // outside the contract: model vs code only
+			}
+			if r.OffKind == 'S' && o-first+swm+8 >= 1<<32 {
+				fits = false
+			}
+		}
+	}
+	w := strings.Join(enc, " || ") + " ; updateChunkOffsets sizeWithoutMdat=" + a[0] + " firstOffset=" + a[1] + " input mdat header " + a[2]
+	evals++
+	if res == "panic" {
+		fail("updateChunkOffsets", "panic", w, "updateChunkOffsets panics")
+		return
+	}
+	if res == "err" {
+		if fits {
+			fail("updateChunkOffsets", "error-returned", w, "error although every new offset fits")
+		}
+		return
+	}
+	if !fits {
+		fail("updateChunkOffsets", "stco-offset-wrapped", w, "a new chunk offset >= 2^32 was stored in a 32-bit stco box: "+res)
+		return
+	}
+	parts := strings.Split(strings.TrimPrefix(res, "ok/"), "|")
+	for t, r := range rs {
+		no := u64list(parts[t])
+		if len(no) != len(r.Offs) {
+			fail("updateChunkOffsets", "wrong-chunk-count", w, "number of chunk offsets changed")
+			return
+		}
+		for c, o := range r.Offs {
+			if no[c] < swm+8 || no[c]-(swm+8) != o-first {
+				fail("updateChunkOffsets", "offset-outside-mdat", w, fmt.Sprintf("track %d chunk %d: new offset %d, want new payload start %d + %d", t+1, c+1, no[c], swm+8, o-first))
+				return
+			}
+		}
+	}
+}
+
+// checkHdr: header durations do not exceed the originals.
+func checkHdr(arg, res string) {
+	a := strings.Split(arg, ":")
+	w := "writeUptoMdat endTime:endTimescale:mvhdTimescale:mvhdDuration:(tkhd;mdhd;elst)* = " + arg
+	evals++
+	if res == "panic" {
+		if a[1] != "0" {
+			fail("writeUptoMdat", "panic", w, "writeUptoMdat panics")
+		}
+		return
+	}
+	if res == "err" {
+		return // a refusal
+	}
+	p := strings.Split(strings.TrimPrefix(res, "ok/"), "/")
+	mv, _ := strconv.ParseUint(p[0], 10, 64)
+	mv0, _ := strconv.ParseUint(a[3], 10, 64)
+	if mv > mv0 {
+		fail("writeUptoMdat", "mvhd-duration-grew", w, fmt.Sprintf("mvhd duration %d > original %d (the new duration is only compared with the tkhd durations)", mv, mv0))
+	}
+	outs := strings.Split(p[1], ":")
+	for t, in := range a[4:] {
+		i3, o3 := strings.Split(in, ";"), strings.Split(outs[t], ";")
+		d0, _ := strconv.ParseUint(i3[0], 10, 64)
+		d1, _ := strconv.ParseUint(o3[0], 10, 64)
+		if d1 > d0 {
+			fail("writeUptoMdat", "duration-grew", w, fmt.Sprintf("track %d tkhd duration %d > original %d", t+1, d1, d0))
+		}
+		if i3[1] != o3[1] {
+			fail("writeUptoMdat", "mdhd-changed", w, fmt.Sprintf("track %d mdhd duration changed", t+1))
+		}
+		if i3[2] != "-" {
+			gi, gOut := strings.Split(i3[2], "|"), strings.Split(o3[2], "|")
+			for g := range gi {
+				ei, eo := u64list(gi[g]), u64list(gOut[g])
+				for e := range ei {
+					if len(eo) != len(ei) || eo[e] > ei[e] {
+						fail("writeUptoMdat", "duration-grew", w, fmt.Sprintf("track %d edit list segment duration grew", t+1))
+					}
+				}
+			}
+		}
+	}
+}
+
+func vFileByte(p uint64) byte { return byte((p*7 + p/3 + p/251) % 256) }
+
+// checkMdat: the mdat written holds exactly the bytes of the ranges, behind an 8-byte header announcing their size.
+func checkMdat(arg, res string) {
+	a := strings.Split(arg, ":")
+	w := "writeMdat fileLen:mdatStart:hdr:payloadLen:lazy:ranges = " + arg
+	n := func(i int) uint64 { v, _ := strconv.ParseUint(a[i], 10, 64); return v }
+	var want []byte
+	inside := n(3) > 0
+	if a[5] != "-" {
+		for _, rg := range strings.Split(a[5], ",") {
+			se := strings.Split(rg, "-")
+			s, _ := strconv.ParseUint(se[0], 10, 64)
+			e, _ := strconv.ParseUint(se[1], 10, 64)
+			if s > e || s < n(1)+n(2) || e >= n(1)+n(2)+n(3) {
+				inside = false
+				break
+			}
+			for q := s; q <= e; q++ {
+				want = append(want, vFileByte(q))
+			}
+		}
+	}
+	if !inside {
+		return // ranges outside the input mdat: model vs code only
+	}
+	evals++
+	if !strings.HasPrefix(res, "ok/") {
+		fail("writeMdat", "error-returned", w, "writeMdat returned "+res+" for ranges inside the input mdat")
+		return
+	}
+	got := res[3:]
+	hdr := fmt.Sprintf("%08x6d646174", len(want)+8)
+	var sb strings.Builder
+	for _, b := range want {
+		fmt.Fprintf(&sb, "%02x", b)
+	}
+	if got != hdr+sb.String() {
+		fail("writeMdat", "mdat-bytes", w, "the mdat written is not an 8-byte header + the bytes of the ranges")
+	}
+}
+
+// checkVirt: cropMP4 on a virtual file: every new chunk offset points inside the new mdat, chunk by chunk.
+func checkVirt(rs []*tbl.Raw, arg, res string) {
+	var enc []string
+	for _, r := range rs {
+		enc = append(enc, r.Encode())
+	}
+	w := strings.Join(enc, " || ") + " ; cropMP4 ms:mdatFirst:hdr:between:pad:mvts:payload:zero:timescales = " + arg
+	p := strings.Split(res, "/")
+	if len(p) < 3 {
+		fail("mp4ff-crop", "crash", w, "cropMP4: "+res)
+		return
+	}
+	if p[2] != "ok" {
+		if p[2] != "err" {
+			fail("mp4ff-crop", "crash", w, "cropMP4: "+res)
+		}
+		return
+	}
+	evals++
+	mdatStart, _ := strconv.ParseUint(p[3], 10, 64)
+	mdatSize, _ := strconv.ParseUint(p[4], 10, 64)
+	ks := u64list(p[6])
+	offs := strings.Split(p[7], "|")
+	var kept uint64
+	for t, r := range rs {
+		x := tbl.Expand(r)
+		k := int(ks[t])
+		no := u64list(offs[t])
+		if k < 1 || k > x.N || len(no) != x.ChunkOf[k-1] {
+			fail("mp4ff-crop", "wrong-chunk-count", w, fmt.Sprintf("track %d: %d samples, %d chunk offsets", t+1, k, len(no)))
+			return
+		}
+		for c, o := range no {
+			var sz uint64
+			for n := x.ChunkFirst[c]; n < x.ChunkFirst[c]+x.ChunkCount[c] && n <= k; n++ {
+				sz += uint64(x.Size[n-1])
+			}
+			kept += sz
+			if o < mdatStart+8 || o+sz > mdatStart+mdatSize {
+				fail("mp4ff-crop", "offset-outside-mdat", w, fmt.Sprintf("track %d chunk %d at %d+%d, the new mdat payload is [%d,%d)", t+1, c+1, o, sz, mdatStart+8, mdatStart+mdatSize))
+				return
+			}
+		}
+	}
+	if kept+8 != mdatSize {
+		fail("mp4ff-crop", "mdat-size", w, fmt.Sprintf("new mdat payload %d bytes, kept samples %d bytes", mdatSize-8, kept))
+	}
+}
+
 func search(cases, res string) {
 	rm := resultsByID(res)
 	for _, l := range readLines(cases) {
 		f := strings.Split(l, "\t")
+		if len(f) >= 3 && f[1] == "hdr" {
+			checkHdr(f[2], strings.TrimPrefix(rm[f[0]], "hdr="))
+			continue
+		}
+		if len(f) >= 3 && f[1] == "mdat" {
+			checkMdat(f[2], strings.TrimPrefix(rm[f[0]], "mdat="))
+			continue
+		}
 		if len(f) < 10 {
 			continue
 		}
@@ -476,6 +683,16 @@ func search(cases, res string) {
 				rs = append(rs, parseRaw(f[i:i+7]))
 			}
 			checkFill(rs, f[2], strings.TrimPrefix(got, "fill="))
+		case "shift", "virt":
+			var rs []*tbl.Raw
+			for i := 3; i+7 <= len(f); i += 7 {
+				rs = append(rs, parseRaw(f[i:i+7]))
+			}
+			if f[1] == "shift" {
+				checkShift(rs, f[2], strings.TrimPrefix(got, "shift="))
+			} else {
+				checkVirt(rs, f[2], strings.TrimPrefix(got, "virt="))
+			}
 		}
 	}
 	fmt.Fprintf(out, "EVALS\t%d\n", evals)
